@@ -1627,3 +1627,122 @@ Proof.
     + destruct Gx as (Hp & _ & _ & HU). auto.
     + apply Forall_forall. intros y Hy. rewrite Forall_forall in G3, HE3. destruct (item_E_pure v y); auto.
 Qed.
+
+(* from the shape in reading order to the stored order *)
+Lemma stored_of_rrun v (d : bool) T1 W1 Lp A Rp W3 :
+  RRun v (if d then T1 else rev T1) W1 Lp A Rp W3 ->
+  exists E1 Lp' A' Rp' E3, Stored d v T1 E1 Lp' A' Rp' E3.
+Proof.
+  intros (EL & HE1 & HE3 & HA & HL & HR). destruct d.
+  - exists W1, Lp, A, Rp, W3. split; [exact EL|]. split; [exact HE1|]. split; [exact HE3|]. split; [exact HA|]. split.
+    + destruct HL as [->|(a & -> & Ha & Hs)]; [now left|right; exists a; repeat split; auto].
+    + destruct HR as [->|(b & -> & Hb & Hs)]; [now left|right; exists b; repeat split; auto].
+  - exists (rev W3), (rev Rp), (rev A), (rev Lp), (rev W1). split; [|split; [|split; [|split; [|split]]]].
+    + rewrite <- (rev_involutive T1), EL, !rev_app_distr, <- !app_assoc. reflexivity.
+    + now apply Forall_rev.
+    + now apply Forall_rev.
+    + now apply Forall_rev.
+    + destruct HR as [->|(b & -> & Hb & Hs)]; [now left|right; exists b; repeat split; auto].
+    + destruct HL as [->|(a & -> & Ha & Hs)]; [now left|right; exists a; repeat split; auto].
+Qed.
+
+Lemma one_of_rone (d : bool) T1 W1 x W3 :
+  ROne (if d then T1 else rev T1) W1 x W3 ->
+  exists E1 E3, T1 = E1 ++ [x] ++ E3 /\ Forall (fun y => ist y = SEmpty) E1 /\ Forall (fun y => ist y = SEmpty) E3 /\
+                (ist x = SPartA \/ ist x = SPartU).
+Proof.
+  intros (EL & HE1 & HE3 & Hx). destruct d.
+  - exists W1, W3. auto.
+  - exists (rev W3), (rev W1). split; [|split; [|split]]; auto using Forall_rev.
+    rewrite <- (rev_involutive T1), EL, !rev_app_distr, <- !app_assoc. reflexivity.
+Qed.
+
+Theorem q_body_complete v T1 (d : bool) :
+  2 <= length T1 -> Forall (GoodItem v) T1 -> Interval (fun s => In v s) (flat_map ib (if d then T1 else rev T1)) ->
+  (hd SFull (map ist T1) = SEmpty \/ last (map ist T1) SFull <> SEmpty) ->
+  (hd SFull (map ist T1) = SEmpty \/
+   (exists a Fs, T1 = a :: Fs /\ ist a = SPartA /\ Forall (fun x => ist x = SFull) Fs) \/
+   ~ (last (map ist T1) SFull = SPartA /\ S (cnt SFull T1) = length T1)) ->
+  exists t' st, q_body v (map ic T1) (map ist T1) = Ok (t', st) /\
+                Ord t' (flat_map ib (if d then T1 else rev T1)) /\ (st = SPartU -> U2 v t').
+Proof.
+  intros Hn HG Hint NF1 NF2.
+  set (L := if d then T1 else rev T1) in *.
+  assert (HGL : Forall (GoodItem v) L) by (unfold L; destruct d; [exact HG|now apply Forall_rev]).
+  assert (Hshape : Shape (wd v) L).
+  { apply shape.
+    - eapply Forall_impl; [|exact HGL]. intros x. apply wd_nonempty.
+    - rewrite flat_map_wd. now apply wv_contig. }
+  destruct (rshape v L HGL Hshape) as [(W1 & Lp0 & A0 & Rp0 & W3 & HR)|(W1 & x & W3 & HO)].
+  2:{ destruct (one_of_rone d T1 W1 x W3 HO) as (E1 & E3 & ET & HE1 & HE3 & Hx). now apply (q_single v T1 d E1 x E3). }
+  destruct (stored_of_rrun v d T1 W1 Lp0 A0 Rp0 W3 HR) as (E1 & Lp & A & Rp & E3 & HS).
+  pose proof HS as (ET & HE1 & HE3 & HA & HL & HRp).
+  (* one partial child and no full child: the previous lemma *)
+  assert (Hsingle : A = [] -> (Lp = [] /\ Rp <> [] \/ Lp <> [] /\ Rp = []) ->
+            exists t' st, q_body v (map ic T1) (map ist T1) = Ok (t', st) /\ Ord t' (flat_map ib L) /\ (st = SPartU -> U2 v t')).
+  { intros -> Hone. destruct Hone as [[-> HRne]|[HLne ->]].
+    - destruct HRp as [->|(b & -> & [Hb _])]; [congruence|].
+      apply (q_single v T1 d E1 b E3); auto; try (rewrite ET; simpl; now rewrite ?app_nil_r).
+    - destruct HL as [->|(a & -> & [Ha _])]; [congruence|].
+      apply (q_single v T1 d E1 a E3); auto; try (rewrite ET; simpl; now rewrite ?app_nil_r). }
+  pose proof (q_body_when v (map ic T1) (map ist T1)) as W. cbv zeta in W. rewrite map_length in W.
+  change (count_st SFull (map ist T1)) with (cnt SFull T1) in W. change (count_st SEmpty (map ist T1)) with (cnt SEmpty T1) in W.
+  change (count_st SPartA (map ist T1)) with (cnt SPartA T1) in W. change (count_st SPartU (map ist T1)) with (cnt SPartU T1) in W.
+  assert (HcL : forall s, cnt s Lp = if status_eqb s SPartA then length Lp else 0).
+  { intros s. destruct HL as [->|(a & -> & [Ha _])]; [now destruct s|]. rewrite cnt_cons, Ha, cnt_nil. destruct s; reflexivity. }
+  assert (HcR : forall s, cnt s Rp = if status_eqb s SPartA then length Rp else 0).
+  { intros s. destruct HRp as [->|(b & -> & [Hb _])]; [now destruct s|]. rewrite cnt_cons, Hb, cnt_nil. destruct s; reflexivity. }
+  assert (HlL : length Lp <= 1) by (destruct HL as [->|(a & -> & _)]; simpl; lia).
+  assert (HlR : length Rp <= 1) by (destruct HRp as [->|(b & -> & _)]; simpl; lia).
+  assert (Hc : forall s, cnt s T1 = (if status_eqb s SEmpty then length E1 else 0) + ((if status_eqb s SPartA then length Lp else 0) +
+              ((if status_eqb s SFull then length A else 0) + ((if status_eqb s SPartA then length Rp else 0) +
+               (if status_eqb s SEmpty then length E3 else 0))))).
+  { intros s. rewrite ET, !cnt_app, (cnt_E_list _ E1 HE1), (cnt_E_list _ E3 HE3), (cnt_F_list _ A HA), HcL, HcR. reflexivity. }
+  assert (Hlen : length T1 = length E1 + (length Lp + (length A + (length Rp + length E3)))) by (rewrite ET, !app_length; reflexivity).
+  rewrite !Hc, Hlen in W. simpl in W. rewrite Hlen in Hn.
+  assert (Hunch : forall st, st <> SPartU ->
+            q_body v (map ic T1) (map ist T1) = Ok (Node KQ (map ic T1), st) ->
+            exists t' st', q_body v (map ic T1) (map ist T1) = Ok (t', st') /\ Ord t' (flat_map ib L) /\ (st' = SPartU -> U2 v t')).
+  { intros st Hst E. exists (Node KQ (map ic T1)), st. split; [exact E|]. split; [now apply (frontier_Q v)|]. intros ->. congruence. }
+  destruct W as (Wa & Wb & _ & _ & We); [lia|now left|].
+  destruct (Nat.eq_dec (length A) (length E1 + (length Lp + (length A + (length Rp + length E3))))) as [EF|EF].
+  { apply (Hunch SFull); [discriminate|]. apply Wa. lia. }
+  destruct (Nat.eq_dec (length E1 + length E3) (length E1 + (length Lp + (length A + (length Rp + length E3))))) as [EE|EE].
+  { apply (Hunch SEmpty); [discriminate|]. apply Wb; lia. }
+  destruct (Nat.eq_dec (length Lp + (length A + length Rp)) (length Lp + length Rp)) as [EA0|EA0];
+    [destruct (Nat.eq_dec (length Lp + length Rp) 1) as [E1p|E1p]|].
+  { (* one partial child, no full child *)
+    apply Hsingle; [apply length_zero_nil; lia|]. destruct Lp, Rp; simpl in *; try lia; [left|right]; split; auto; discriminate. }
+  all: (* the scan *)
+    assert (Hsn : Rp = [] \/ Lp <> [] \/ A <> []) by
+      (destruct Rp; [now left|right]; destruct Lp; [right; destruct A; [simpl in *; lia|discriminate]|left; discriminate]);
+    pose proof (scan_stored d v T1 E1 Lp A Rp E3 HS Hsn) as Hscan;
+    assert (Eq := We ltac:(lia) ltac:(lia) ltac:(lia) ltac:(lia));
+    rewrite combine_pairs, Hscan in Eq;
+    eexists _, _; (split; [exact Eq|]); (split; [now apply (stored_frontier v d T1 E1 Lp A Rp E3)|]);
+    intros Hst;
+    (* UNALIGNED: children without v at both ends *)
+    (assert (Hsre : Rp <> [] \/ (E3 <> [] /\ (Lp <> [] \/ A <> []))) by
+       (destruct Rp; [|left; discriminate]; right; destruct E3; [discriminate|]; split; [discriminate|];
+        destruct Lp; [|left; discriminate]; destruct A; [discriminate|right; discriminate]));
+    apply (stored_U2 v d T1 E1 Lp A Rp E3 HG HS); [|destruct Hsre as [H|[H _]]; auto];
+    (destruct E1 as [|e1 E1']; [|left; discriminate]); (destruct Lp as [|a Lp']; [|right; discriminate]); exfalso;
+    (* the first child is full: excluded by the normal form of the stored order *)
+    (destruct A as [|a0 A']; [simpl in *; lia|]);
+    (assert (Hhd : hd SFull (map ist T1) = SFull) by (rewrite ET; simpl; inversion HA; auto));
+    (destruct NF1 as [NF1|NF1]; [congruence|]);
+    (assert (HE3nil : E3 = []) by
+       (destruct E3 as [|e3 E3'] using rev_ind; [reflexivity|]; exfalso; apply NF1; rewrite ET, !app_assoc, last_map_app_cons;
+        apply Forall_app in HE3; destruct HE3 as [_ H]; now inversion H));
+    subst E3;
+    (destruct HRp as [->|(b & -> & [Hb _])]; [destruct Hsre as [H|[H _]]; congruence|]);
+    (destruct NF2 as [NF2|[(a' & Fs & Ea & Ha' & _)|NF2]];
+      [congruence
+      |rewrite ET in Ea; simpl in Ea; inversion Ea; subst; inversion HA; congruence
+      |apply NF2; split;
+        [rewrite ET; simpl app; rewrite ?app_nil_r, app_comm_cons, last_map_app_cons; exact Hb
+        |rewrite Hc, Hlen; simpl; lia]]).
+Qed.
+
+
+
